@@ -299,7 +299,7 @@ package main
 //@   calls strconv.ParseInt#1: set dl = $r0
 //@   calls strconv.ParseInt#1: set ok = ($r1 == nil)
 //@   calls time.Time.Unix#1: set now = $r
-//@   calls osWithStats.Remove#1: requires matches(path, `.*/([0-9a-f]{32})\.trash\.(\d+)`) && ok && dl <= now && $0 == path
+//@   calls osWithStats.Remove#1: requires matches(path, `(?s).*/([0-9a-f]{32})\.trash\.(\d+)`) && ok && dl <= now && $0 == path
 
 // Untrash: only a file named <loc>.trash.<something> in the block's directory
 // is renamed, and only onto the block's own path; never on a read-only volume.
